@@ -12,6 +12,9 @@ CHECKS = {
  'C19': dict(level='exploration', engine='urlprobe', technique='property-based testing over a constructed URL catalogue (Hypothesis sampling in quick, exhaustive product in thorough) with a by-construction oracle and a differential oracle against the HTTP client\'s own URL parser',
    text='Every URL is built from parts whose denoted address is known by construction (textual encodings of addresses inside/outside the denied networks, names of a stub resolver zone) under six denied_cidrs/allowed_hosts configurations; validate_url must refuse exactly what the policy in the property statement refuses, HTTPAction.run and WebhookPublisher.publish must invoke the HTTP client iff the URL was not refused, and for accepted URLs the host requests/urllib3 would connect to must not denote a denied address (free-form mutated authorities included). Thorough enumerates the whole catalogue product.',
    design='3 C19', note='DNS replaced by a stub zone inside mistral.utils.egress (numeric literals still go through libc getaddrinfo); HTTP client stubbed; redirects and DNS rebinding are outside the property'),
+ 'C18': dict(level='exploration', engine='simworld', technique='property-based testing: generated execution-tree populations and policy settings, invariant oracle from a reference eligibility model (Hypothesis)',
+   text='Generated populations of execution trees (states, ages with ties, projects, nesting with tasks/actions/sub-executions) and generated settings (older_than incl. unset, max_finished_executions, batch_size, ignored_states) are evaluated once by the real run_execution_expiration_policy under a virtual clock; the surviving rows are compared against a reference model as tie-robust invariants (only eligible roots deleted, expired ones gone, at most max_finished kept, no newer deleted while older kept, every tree complete or completely gone, evaluation terminates within a fetch budget and raises nothing).',
+   design='3 C18', note='rows inserted through the DB api with forged timestamps; SQLite FK cascade stands in for the production RDBMS; one evaluation per case'),
 }
 NA = []
 def main():
